@@ -23,6 +23,9 @@ func init() {
 		"fmt.Fprint":   extFprint,
 		"fmt.Fprintln": extFprintln,
 		"fmt.Errorf":   extErrorf,
+		"fmt.Appendf":  extAppendf,
+		"fmt.Append":   extAppend,
+		"fmt.Appendln": extAppendln,
 	} {
 		externals[k] = v
 	}
@@ -155,7 +158,38 @@ func (i *interpreter) badVerb(fr *frame, verb byte, arg value) []value {
 }
 
 // sprintf formats; wrapped receives the operand of the first %w, if any.
+// hostOperand converts an operand to a host value when it is a concrete value of an
+// unnamed basic type (so that no method of the target program is involved).
+func hostOperand(a value) (interface{}, bool) {
+	itf, ok := a.(iface)
+	if !ok || itf.t == nil {
+		return nil, false
+	}
+	if _, basic := itf.t.(*types.Basic); !basic {
+		return nil, false
+	}
+	switch v := itf.v.(type) {
+	case string, bool, int, int8, int16, int32, int64, uint, uint8, uint16, uint32, uint64, uintptr, float32, float64:
+		return v, true
+	}
+	return nil, false
+}
+
 func (i *interpreter) sprintf(fr *frame, format value, args []value, wrapped *value) []value {
+	// concrete format and concrete basic operands: the host's fmt, which also
+	// covers flags, width and precision
+	if fs, ok := format.(string); ok && wrapped == nil {
+		host := make([]interface{}, len(args))
+		all := true
+		for k, a := range args {
+			if host[k], all = hostOperand(a); !all {
+				break
+			}
+		}
+		if all {
+			return strBytes(fmt.Sprintf(fs, host...))
+		}
+	}
 	f := strBytes(format)
 	var out []value
 	argN := 0
@@ -341,4 +375,23 @@ func extErrorf(fr *frame, args []value) value {
 		setField(p, T, "Err", wrapped)
 	}
 	return iface{t: types.NewPointer(T), v: p}
+}
+
+func appendTo(dst value, data []value) value {
+	d, _ := dst.([]value)
+	out := make([]value, 0, len(d)+len(data))
+	out = append(out, d...)
+	return append(out, data...)
+}
+
+func extAppendf(fr *frame, args []value) value {
+	return appendTo(args[0], fr.i.sprintf(fr, args[1], variadic(args[2]), nil))
+}
+
+func extAppend(fr *frame, args []value) value {
+	return appendTo(args[0], fr.i.sprint(fr, variadic(args[1]), false))
+}
+
+func extAppendln(fr *frame, args []value) value {
+	return appendTo(args[0], fr.i.sprint(fr, variadic(args[1]), true))
 }
